@@ -48,10 +48,18 @@ def main(argv):
         try:
             rc = mod.main(chk)
         except core.Infra as ex:
+            if chk.failing or chk.broken:
+                print(f"[{prop}] infrastructure failure ({ex}) after recording {len(chk.failing)} failing input(s) / {len(chk.broken)} broken obligation(s): reporting them", flush=True)
+                return chk.finish(None)
             print(f"INFRA-FAILURE property={prop}: {ex}", flush=True)
             return 2
         except Exception:
             traceback.print_exc()
+            if chk.failing or chk.broken:
+                # the harness died AFTER it had found something: report that (a crash downstream of a misbehaving implementation must not
+                # swallow the failing input already recorded)
+                print(f"[{prop}] harness crashed after recording {len(chk.failing)} failing input(s) / {len(chk.broken)} broken obligation(s): reporting them", flush=True)
+                return chk.finish(None)
             print(f"INFRA-FAILURE property={prop}: harness crashed", flush=True)
             return 2
         print(f"[{prop}] done tier={tier} seed={chk.seed} rc={rc} wall={chk.coverage and round(__import__('time').time()-chk.t0,1)}s", flush=True)
